@@ -45,17 +45,27 @@ def dterm(mask: int, n: int, w1: int, w2: int) -> bool:
     return [f.expr for f in d.factors] == _expected(mask, wrt)
 
 
-def dformula(m1: int, m2: int, m3: int, w1: int) -> bool:
+def dformula(m1: int, m2: int, m3: int, w1: int, o: int = 1) -> bool:
     """
-    pre: 0 <= m1 < 8 and 0 <= m2 < 8 and 0 <= m3 < 8 and 0 <= w1 < 3 and m1 == __SHARD__
+    pre: 0 <= m1 < 8 and 0 <= m2 < 8 and 0 <= m3 < 8 and 0 <= w1 < 3 and 0 <= o < 3 and m1 == __SHARD__
     post: _
     """
-    m1, m2, m3, w1 = _pick(m1, 0, 7), _pick(m2, 0, 7), _pick(m3, 0, 7), _pick(w1, 0, 2)
+    m1, m2, m3, w1, o = _pick(m1, 0, 7), _pick(m2, 0, 7), _pick(m3, 0, 7), _pick(w1, 0, 2), _pick(o, 0, 2)
     masks = [m1, m2, m3]
-    f = SimpleFormula([_term(m) for m in masks], _ordering="none")
+    # whatever ordering policy the source formula carries: the k-th term of the derivative is the derivative of ITS k-th term
+    f = SimpleFormula([_term(m) for m in masks], _ordering=("degree", "none", "sort")[o])
+    src = [[x.expr for x in t.factors if x.expr != "1"] for t in f]
     d = f.differentiate(VARS[w1])
-    got = [[x.expr for x in t.factors] for t in d]
-    return got == [_expected(m, [VARS[w1]]) for m in masks]  # same number and order of terms
+    got = [sorted(x.expr for x in t.factors) for t in d]
+    want = []
+    for fs in src:
+        if VARS[w1] not in fs:
+            want.append(["0"])
+        else:
+            want.append(sorted(x for x in fs if x != VARS[w1]) or ["1"])
+    if o == 1 and src != [[POOL[i] for i in range(len(POOL)) if m & (1 << i)] for m in masks]:
+        return False
+    return got == want  # same number and order of terms
 
 
 # ------------------------------------------------------------------------------------------------ C09: _enforce_structure
